@@ -7,7 +7,7 @@ p='/verif/spec/ErgoTrace.tla'
 s=open(p).read()
 m=re.search(r'ClauseNames ==\s*\{(.*?)\}', s, re.S)
 names=re.findall(r'"(\w+)"', m.group(1))
-special=[n for n in names if re.match(r'C17_|C18_|C19_|C12_file_', n)]
+special=[n for n in names if re.match(r'C17_|C18_|C19_|C12_file_|C10_text_', n)]
 line='TextNames == {'+', '.join('"%s"'%n for n in special)+'}'
 s=re.sub(r'TextNames == \{[^}]*\}', line, s)
 open(p,'w').write(s)
